@@ -286,10 +286,18 @@ def largestGo : List TB → Nat → Option (Nat × Nat) → Option (Nat × Nat)
       else best
     largestGo rest (i+1) best'
 
+def mapIdxFrom (g : Nat → TB → TB) : Nat → List TB → List TB
+  | _, [] => []
+  | i, b :: rest => g i b :: mapIdxFrom g (i+1) rest
+
+def anyIdxFrom (g : Nat → TB → Bool) : Nat → List TB → Bool
+  | _, [] => false
+  | i, b :: rest => g i b || anyIdxFrom g (i+1) rest
+
 def markLargest (idx : Option Nat) (l : List TB) : List TB :=
-  (List.range l.length).zip l |>.map (fun (i, b) =>
+  mapIdxFrom (fun i b =>
     if some i == idx then { b with content := true, labels := { b.labels with veryLikely := true } }
-    else { b with content := false, labels := { b.labels with mightBe := true } })
+    else { b with content := false, labels := { b.labels with mightBe := true } }) 0 l
 
 /-- one direction of the sibling expansion: `gp` is the grand-parent to match, `mine` / `next`
 pick the candidate's element to compare and the one to continue from -/
@@ -332,20 +340,25 @@ def expandTitle (l : List TB) : List TB × Bool :=
   | (some t, some c) =>
     if c ≤ t then (l, false) else
       let hit (i : Nat) (b : TB) : Bool := decide (t ≤ i) && decide (i < c) && b.labels.mightBe
-      ((List.range l.length).zip l |>.map (fun (i, b) => if hit i b then { b with content := true } else b),
-       (List.range l.length).zip l |>.any (fun (i, b) => hit i b && !b.content))
+      (mapIdxFrom (fun i b => if hit i b then { b with content := true } else b) 0 l,
+       anyIdxFrom (fun i b => hit i b && !b.content) 0 l)
   | _ => (l, false)
 
 /-! ### 13: LargeBlockAroundTagLevelToContent -/
 
-def largeBlock (l : List TB) : List TB × Bool :=
-  let tl : Int := match l.find? (fun b => b.content && b.labels.veryLikely) with
-    | some b => b.tagLevel
-    | none => -1
+def largeLevel (l : List TB) : Int :=
+  match l.find? (fun b => b.content && b.labels.veryLikely) with
+  | some b => b.tagLevel
+  | none => -1
+
+def largeHit (tl : Int) (b : TB) : Bool :=
+  !b.content && decide (b.numWords ≥ 100) && (b.tagLevel == tl || b.tagLevel == tl - 1 || b.tagLevel == tl + 1)
+
+def largeBlockAt (tl : Int) (l : List TB) : List TB × Bool :=
   if tl == -1 then (l, false) else
-    let hit (b : TB) : Bool := !b.content && decide (b.numWords ≥ 100) &&
-      (b.tagLevel == tl || b.tagLevel == tl - 1 || b.tagLevel == tl + 1)
-    (l.map (fun b => if hit b then { b with content := true } else b), l.any hit)
+    (l.map (fun b => if largeHit tl b then { b with content := true } else b), l.any (largeHit tl))
+
+def largeBlock (l : List TB) : List TB × Bool := largeBlockAt (largeLevel l) l
 
 /-! ### 14: ListAtEnd -/
 
